@@ -6,7 +6,7 @@
 From Coq Require Import List Arith Bool.
 Import ListNotations.
 From Mos Require Import Heap.
-From Mos.proofs Require Import HeapFacts.
+From Mos.proofs Require Import HeapFacts HeapCopy.
 
 (* FRAME: mutating a node outside a set of locations closed under "child of" changes no tree
    denoted by a location of the set *)
@@ -48,3 +48,15 @@ Theorem C13_copy_example :
   view nat 5 (fst (run nat (h0, [3]) by_copy)) 0 = view nat 5 h0 0.
 Proof. exact copy_example. Qed.
 Print Assumptions C13_copy_example.
+
+(* CONTENT: a deep copy denotes exactly the tree it copies, and its source keeps denoting that
+   tree - so inserting a deep copy is inserting the value: what a merge puts into the running
+   order depends on the content of the message only.  (scoped: every cell and every child it
+   names lies below the allocation pointer; preserved by allocation.) *)
+Theorem C13_copy_same_content :
+  forall (D : Type) (fu : nat) (h : heap D) (src : loc) (t : tree D),
+  scoped D h -> view D fu h src = Some t ->
+  view D (depth D t) (fst (alloc D t h)) (snd (alloc D t h)) = Some t /\
+  view D fu (fst (alloc D t h)) src = Some t.
+Proof. exact deepcopy_same_content. Qed.
+Print Assumptions C13_copy_same_content.
